@@ -560,7 +560,8 @@ def scenarios(tier, seed):
         add("sgpr", n=2, M=2, m=1, diag_corr=dc, what="kernel")
     add("sgpr", n=2, M=1, m=1, diag_corr=False, what="objective")
     add("sgpr", n=2, M=1, m=1, diag_corr=False, what="predict")
-    add("sgpr", n=2, M=1, m=1, diag_corr=True, what="predict")
+    if tier != "quick":
+        add("sgpr", n=2, M=1, m=1, diag_corr=True, what="predict")  # ~80 s of solver time for two obligations: thorough tier only
     for ops in (["P", "O"], ["P", "L"]) + ((["P", "T", "O"], ["P", "E", "L"], ["O", "P", "L"]) if tier != "quick" else ()):
         add("sgpr_history", ops=ops)
     add("wiski", fpv=False)
